@@ -343,11 +343,18 @@ LAST_OP_MAPS["squeeze"] = _reverse_squeeze
 
 def _reverse_to_module(self, args, kwargs, out):
     try:
-        with (
-            out.unlock_()
-            if not is_compiling() and out is not None
-            else contextlib.nullcontext()
-        ):
+        if is_compiling() or out is None:
+            ctx = contextlib.nullcontext()
+        else:
+            try:
+                ctx = out.unlock_()
+            except RuntimeError:
+                # `out` cannot be unlocked on its own (it is part of a locked tensordict): the
+                # module must be given its tensors back all the same; the values that were
+                # swapped in simply stay where they are in `out`
+                ctx = contextlib.nullcontext()
+                out = None
+        with ctx:
             return self.to_module(*args, **kwargs, swap_dest=out)
     except AttributeError:
         # This is a bit unsafe but we assume that out won't have an unlock_() if it's not a TD
